@@ -232,6 +232,12 @@ def impl_run(case):
                 c, ops, nts = M.build_pyrates(mdl, style=case.get("style"))
                 for path, val in mdl.get("post_values", {}).items():
                     c.update_var(node_vars={path: float(F(val))})
+                hist_kw = {}
+                for h in case.get("history", []):          # override histories (C07): update_var and apply-time node_values
+                    if h[0] == "update_var":
+                        c.update_var(node_vars={k: (np.array([float(F(x)) for x in v]) if isinstance(v, list) else float(F(v))) for k, v in h[1].items()})
+                    elif h[0] == "node_values":
+                        hist_kw["node_values"] = {k: (np.array([float(F(x)) for x in v]) if isinstance(v, list) else float(F(v))) for k, v in h[1].items()}
                 kw = dict(simulation_time=float(F(rc["T"])), step_size=float(F(rc["dt"])), solver=rc.get("solver", "euler"),
                           outputs=rc["outputs"], vectorize=rc.get("vectorize", True), float_precision="float64", verbose=False,
                           in_place=case.get("in_place", True), clear=True)
@@ -242,6 +248,7 @@ def impl_run(case):
                 if rc.get("backend"):
                     kw["backend"] = rc["backend"]
                 kw.update(rc.get("kwargs") or {})
+                kw.update(hist_kw)
                 if rc.get("inputs"):
                     kw["inputs"] = {k: np.array([[float(F(x)) for x in row] for row in v]) if v and isinstance(v[0], list)
                                     else np.array([float(F(x)) for x in v]) for k, v in rc["inputs"].items()}
